@@ -72,6 +72,23 @@ func genC20(h *H) {
 			}
 		}
 	}
+	// VALID public keys in every accepted format (compressed, uncompressed, both hybrid tags) and their wrong-parity
+	// twins: a parser that succeeds must leave the caller's bytes alone too
+	cat := func(parts ...[]byte) []byte {
+		var o []byte
+		for _, p := range parts {
+			o = append(o, p...)
+		}
+		return o
+	}
+	for i := 0; i < 2; i++ {
+		px, py := h.affinePoint()
+		x, y := be32(px), be32(py)
+		par := byte(y[31] & 1)
+		for _, enc := range [][]byte{cat([]byte{2 + par}, x), cat([]byte{4}, x, y), cat([]byte{6 + par}, x, y), cat([]byte{7 - par}, x, y), cat([]byte{3 - par}, x)} {
+			lines = append(lines, "pubkey_parse "+hx(enc), "schnorr_pubkey_parse "+hx(enc), "pubkey_roundtrip "+hx(enc))
+		}
+	}
 	// FromPublicKey on caller-owned keys with coordinates in and out of range
 	{
 		px, py := h.affinePoint()
